@@ -428,6 +428,37 @@ theorem wf_of_wfB (c : Collection) (h : wfB c = true) : WF c := by
     ownFeatures := fun fs hfs => nodup_of_B _ (h16 fs hfs),
     members := fun ks hks => nodup_of_B _ (h17 ks hks) }
 
+theorem coherentByB_of {α κ : Type} [DecidableEq α] [DecidableEq κ] (key : α → κ) (xs : List α)
+    (h : CoherentBy key xs) : coherentByB key xs = true := by
+  simp only [coherentByB, List.all_eq_true, Bool.or_eq_true, decide_eq_true_eq, beq_iff_eq]
+  intro x hx y hy
+  by_cases hk : key x = key y
+  · exact Or.inr (h x hx y hy hk)
+  · exact Or.inl hk
+
+theorem nodupB_of {α : Type} [BEq α] [LawfulBEq α] (xs : List α) (h : xs.Nodup) : nodupB xs = true := by
+  induction xs with
+  | nil => rfl
+  | cons x xs ih =>
+    rw [List.nodup_cons] at h
+    simp only [nodupB, Bool.and_eq_true, Bool.not_eq_true', List.contains_eq_mem,
+      decide_eq_false_iff_not]
+    exact ⟨h.1, ih h.2⟩
+
+theorem wfB_of_wf (c : Collection) (h : WF c) : wfB c = true := by
+  simp only [wfB, Bool.and_eq_true, List.all_eq_true]
+  exact ⟨⟨⟨⟨⟨⟨⟨⟨⟨⟨⟨⟨⟨⟨⟨⟨coherentByB_of _ _ h.users, coherentByB_of _ _ h.recs⟩,
+    coherentByB_of _ _ h.clips⟩, coherentByB_of _ _ h.ses⟩, coherentByB_of _ _ h.seqs⟩,
+    coherentByB_of _ _ h.seas⟩, coherentByB_of _ _ h.sqas⟩, coherentByB_of _ _ h.cas⟩,
+    coherentByB_of _ _ h.seps⟩, coherentByB_of _ _ h.sqps⟩, coherentByB_of _ _ h.cps⟩,
+    coherentByB_of _ _ h.tasks⟩, coherentByB_of _ _ h.ms⟩, coherentByB_of _ _ h.ces⟩,
+    fun o ho fs hfs => nodupB_of _ (h.features o ho fs hfs)⟩,
+    fun fs hfs => nodupB_of _ (h.ownFeatures fs hfs)⟩,
+    fun ks hks => nodupB_of _ (h.members ks hks)⟩
+
+/-- the executable check decides the hypothesis of the round-trip theorems -/
+theorem wfB_iff (c : Collection) : wfB c = true ↔ WF c := ⟨wf_of_wfB c, wfB_of_wf c⟩
+
 /-! ### the collection type is kept -/
 theorem load_typeName {d : Doc} {ld : Option PPath} {c' : Collection} (h : load d ld = .ok c') :
     c'.typeName = d.collection_type := by
